@@ -48,6 +48,12 @@ CHECKS = {
     'C13': dict(category='exploration', engine='Splitter', technique='TLA+ Splitter.tla (character-class transcription of the statement splitter with the property as invariants): TLC enumerates every class string up to the bound; every concrete string over the 27-character alphabet is fed to the real parse_model with side-effect canaries and judged by the emitted legal-outcome set; spec-judged mutation fuzzing of valid scripts',
                 text='Splitter.tla consumes one character class at a time exactly like split_equations_iter (comments, fences, bracket depth, statement regex) and states C13_NoSilentDrop / C13_Outcome / C14_Independent; TLC enumerates all class strings (length <= 4 quick, <= 5 thorough, plus eight context heads) and emits for each the legal outcomes and statement extents; the harness expands each to all concrete strings, runs parse_model under a CPU-time alarm with canaries (print/open/sentinel call/np.geterr/warnings/cwd/module globals), requires a parser-own error or a model that builds, instantiates and has exactly the spec\'s statements, and also judges ~40 seed scripts and their mutants through the spec.',
                 note='Trusted: TLC; the documented expansion of classes to characters; exhaustive only to the stated length; longer inputs by context heads and fuzzing.', ref='6.8, 7 (C13)'),
+    'C18': dict(category='model_checking', engine='Alias', technique='TLA+ Alias.tla: alias-map operators (Shorten, Resolve, ExportNames) and an aliased/canonical twin machine checked exhaustively by TLC; behaviours replayed on an AliasMixin model and a canonical twin',
+                text='Alias.tla transcribes chain shortening, resolution, preferred-name checks and export naming, and runs an aliased model and its canonical twin in lock-step under the container operation alphabet; TLC checks C18_Shorten/Twin/NoStorage/Ambiguous/Export over all alias maps (many-to-one, chains, self-maps, aliases of aliases) x PREFERRED_NAMES subsets x histories; each behaviour is replayed on real classes (constructor keywords, attribute/key/label/slice/bulk access, solution code through aliases, to_dataframe(use_aliases=True)) with storage-identity checks and a CPU-time alarm on construction.',
+                note='Trusted: TLC; <=3 variables, <=4 aliases, chains <=3, histories <=3 exhaustively; pandas rename observed.', ref='6.5, 7 (C18)'),
+    'C19': dict(category='exploration', engine='Tabular', technique='TLA+ Tabular.tla: ToTable/FromTable/linker tables/symbol-table operators with round-trip invariants checked by TLC; emitted expected tables compared with real DataFrames over seven span types and eight flag sets; symbol round trip on parser output',
+                text='Tabular.tla defines the expected table (index, columns in model order, dtype kinds, cells, status/iterations/internal flags), the from_dataframe inverse, per-submodel linker tables and the symbol round trip; TLC checks C19_Shape/RoundTrip/Linker/Symbols on every model shape in the bound and emits the expected tables; the harness builds the real models (extra int/bool/str/float and underscore variables, solved and unsolved) over seven span types, compares the DataFrames cell by cell, re-imports them and round-trips every symbol list.',
+                note='Trusted: TLC; pandas dtype coercions are observed, not modelled; from_dataframe covers class-level variables only.', ref='6.10, 7 (C19)'),
 }
 
 NOT_YET = {}
